@@ -338,9 +338,8 @@ def run_case(cfg_shard, case, out):
             t0 = w.clock.now
             n_em = len(emissions["c2s"].get(a.addr, []))
             a.connect(with_callback=True)
+            # settings made on the UdpClient - before or after the first connect - hold for every later session of that client
             timeout = eff["connect_timeout"]
-            # (setters made before connect persist on the UdpClient; 'after' ones were applied to the old connection and to the client)
-            timeout = a.udp.temp_connection_timeout
             t_disc = None
             while w.clock.now - t0 < timeout + 4 * tick_max + 0.5:
                 w.step()
@@ -365,6 +364,26 @@ def run_case(cfg_shard, case, out):
                 viol("reconnect-after-dropped-failed", "connect() on the same UdpClient over a healed link: status %s, callbacks %r" % (a.udp.conn.status, [v for t, v in a.connect_cb[n_cb:]]))
             elif ok2:
                 c.inc("k4_reconnect_after_heal_connected")
+                # K5 for the second session of the same client: the settings are still in force
+                conn2 = a.udp.conn
+                got = {"keep_alive": conn2.send_keep_alive_interval, "connect_timeout": conn2.temp_connection_timeout, "message_timeout": conn2.outgoing_timeout}
+                for which in ("keep_alive", "connect_timeout", "message_timeout"):
+                    if abs(got[which] - eff[which]) > EPS:
+                        viol("client-setting-lost-on-reconnect:%s" % which, "second session on the same UdpClient: %s is %r, the application had set %r (%s connect)" % (
+                            which, got[which], eff[which], cfg["order"][which]))
+                    else:
+                        c.inc("k5_settings_in_force_in_second_session")
+                ems2 = emissions["c2s"].setdefault(a.addr, [])
+                t_a = w.clock.now + 0.3
+                w.step(int((0.3 + 3 * max(eff["keep_alive"], 0.1) + 0.2) / cfg["dt"]))
+                ts = [t for t in ems2 if t >= t_a]
+                gaps = [y - x for x, y in zip(ts, ts[1:])]
+                bound = max(eff["keep_alive"], conn2.send_interval) + tick_max + EPS
+                if getattr(conn2.status, "value", 0) == 2 and (len(ts) < 2 or max(gaps) > bound):
+                    viol("client-keep-alive-setting-not-applied", "second session on the same UdpClient: idle emission gaps %s exceed keep-alive %.3f + one tick" % (
+                        [round(g, 3) for g in gaps[:4]], eff["keep_alive"]))
+                elif gaps:
+                    c.inc("k1_second_session_gaps_checked", len(gaps))
         out["distinct"].add(h64(sorted((k, str(v)) for k, v in cfg.items())))
         if len(out["samples"]) < 2:
             out["samples"].append({"case": key, "config": cfg})
@@ -392,7 +411,8 @@ def finish(tier, seed, results):
                          "k5_message_timeout_in_window", "setter_keep_alive_before", "setter_keep_alive_after", "setter_connect_timeout_before",
                          "setter_connect_timeout_after", "setter_message_timeout_before", "setter_message_timeout_after", "k5_keep_alive_lowered_mid_idle",
                          "k5_keep_alive_lowered_in_window", "k1_one_directional_streams", "k1_quiet_side_within_bound",
-                         "same_ip_second_client_connected", "k4_reconnect_after_dropped_in_window", "k4_reconnect_after_heal_connected"], inconclusive)
+                         "same_ip_second_client_connected", "k4_reconnect_after_dropped_in_window", "k4_reconnect_after_heal_connected",
+                         "k5_settings_in_force_in_second_session"], inconclusive)
     cov = {
         "evaluations": m["evaluations"],
         "distinct_nontrivial": m["distinct_nontrivial"],
